@@ -14,6 +14,7 @@ package ice
 //@   modifies *refs
 //@   ensures counts-the-new-handle: *refs == old(*refs) + 1
 //@   ensures fresh-open-handle: result != nil && fresh(result) && result.underlying == u && result.refs == refs && result.closeOnce == 0 && !result.ctx.gDone
+//@   ensures C13 C09 a-new-handle-has-not-been-closed-nor-taken-over: result.gClosed == 0 && !result.gHeld
 
 //@ func (*sharedPacketConn).Close
 //@   props C13
